@@ -381,6 +381,104 @@ def rule_ESC(ctx):
     return r
 
 
+def rule_LOOPX(ctx):
+    """A loop that walks a cursor towards a bound in clamped steps (`pos = max(lo, pos - step)`) and works on the window at the
+    cursor at the top of each round must test for the end BEFORE it moves the cursor: `pos = max(lo, pos - step); if pos == lo:
+    return` leaves the loop on arrival at lo, so the window at lo itself is never processed (the matches of the last chunk are
+    lost).  Where another path of the same loop tests first and moves afterwards, the two paths contradict each other."""
+    m = ctx.m
+    r = RuleResult('LOOPX', 'clamped-step loops test for the bound before moving the cursor (the window at the bound is processed)')
+    n = 0
+    for f in m.funcs.values():
+        if f.mod == '__main__':
+            continue
+        for lp in own_walk(f.node):
+            if not isinstance(lp, ast.While):
+                continue
+
+            def lists(node):
+                for fld in ('body', 'orelse'):
+                    lst = getattr(node, fld, None)
+                    if isinstance(lst, list) and lst and isinstance(lst[0], ast.stmt):
+                        yield lst
+                        for c in lst:
+                            if not isinstance(c, (ast.FunctionDef, ast.While, ast.For)) or c is lp:
+                                yield from lists(c)
+            for lst in lists(lp):
+                for i, st in enumerate(lst):
+                    # P = max(LO, P - E)   /   P = min(HI, P + E)
+                    if not (isinstance(st, ast.Assign) and len(st.targets) == 1 and isinstance(st.targets[0], ast.Name) and isinstance(st.value, ast.Call)
+                            and isinstance(st.value.func, ast.Name) and st.value.func.id in ('max', 'min') and len(st.value.args) == 2):
+                        continue
+                    P = st.targets[0].id
+                    args = st.value.args
+                    step = [a for a in args if isinstance(a, ast.BinOp) and isinstance(a.op, (ast.Sub, ast.Add)) and isinstance(a.left, ast.Name) and a.left.id == P]
+                    bound = [a for a in args if a not in step]
+                    if len(step) != 1 or len(bound) != 1:
+                        continue
+                    n += 1
+                    lo = ast.unparse(bound[0])
+                    nxt = lst[i + 1] if i + 1 < len(lst) else None
+                    arrives = isinstance(nxt, ast.If) and isinstance(nxt.test, ast.Compare) and len(nxt.test.ops) == 1 and isinstance(nxt.test.ops[0], ast.Eq) \
+                        and {ast.unparse(nxt.test.left), ast.unparse(nxt.test.comparators[0])} == {P, lo} and nxt.body and isinstance(nxt.body[-1], (ast.Return, ast.Break))
+                    # the window at the cursor is used at the top of the loop body
+                    uses_top = any(isinstance(y, ast.Name) and y.id == P for y in ast.walk(lp.body[0])) if lp.body else False
+                    if arrives and uses_top:
+                        r.fail(f.key, nxt, f"{f.name} moves its cursor ({norm(st)}) and leaves the loop as soon as it ARRIVES at {lo} ({norm(nxt.test)}): the "
+                               f"window at {lo} is never processed, so whatever lies in the last chunk is lost", loc=f.loc(nxt))
+                    else:
+                        r.ok(f'{f.key}:{norm(st)}', {'instance': f.key, 'cursor': norm(st), 'verdict': 'bound tested before the move (or window not cursor-based)'})
+    if n < 1:
+        r.notes.append('no clamped-step cursor loop in the package')
+        r.ok('no clamped-step loops', trivial=True)
+    # a generator that stops after `count` results must count what it yields: an increment of the counter that is not next to
+    # the yield (e.g. before a filter that decides whether the value is yielded at all) counts results nobody receives, so the
+    # two variants of one search return different numbers of matches for the same count
+    n_c = 0
+    for f in m.funcs.values():
+        if f.mod == '__main__' or 'count' not in f.params():
+            continue
+        yields = [x for x in own_walk(f.node) if isinstance(x, ast.Expr) and isinstance(x.value, ast.Yield)]
+        if not yields:
+            continue
+        # the counter: a local compared with count in an exit test
+        counters = set()
+        for x in own_walk(f.node):
+            if isinstance(x, ast.If) and x.body and isinstance(x.body[-1], (ast.Return, ast.Break)):
+                for d in ast.walk(x.test):
+                    if isinstance(d, ast.Compare) and len(d.ops) == 1 and isinstance(d.ops[0], (ast.GtE, ast.Gt, ast.Eq)) and isinstance(d.left, ast.Name) \
+                            and ast.unparse(d.comparators[0]) == 'count':
+                        counters.add(d.left.id)
+        if not counters:
+            continue
+
+        def blocks(node):
+            for fld in ('body', 'orelse', 'finalbody'):
+                lst = getattr(node, fld, None)
+                if isinstance(lst, list) and lst and isinstance(lst[0], ast.stmt):
+                    yield lst
+                    for c in lst:
+                        if not isinstance(c, ast.FunctionDef):
+                            yield from blocks(c)
+        for lst in blocks(f.node):
+            incs = [st for st in lst if isinstance(st, ast.AugAssign) and isinstance(st.op, ast.Add) and isinstance(st.target, ast.Name) and st.target.id in counters]
+            ys = [st for st in lst if st in yields]
+            if not incs and not ys:
+                continue
+            n_c += 1
+            if incs and not ys:
+                r.fail(f.key, incs[0], f"{f.name} counts a result ({norm(incs[0])}) in a place where nothing is yielded: the value may still be filtered out "
+                       "afterwards, so `count` limits something other than the number of results returned (the sibling variant counts yielded "
+                       'results only)', loc=f.loc(incs[0]))
+            elif ys and not incs:
+                r.fail(f.key, ys[0], f'{f.name} yields a result without counting it although it stops at `count`', loc=f.loc(ys[0]))
+            else:
+                r.ok(f'{f.key}:{norm(incs[0])}', {'instance': f.key, 'verdict': 'counter incremented next to the yield'})
+    if n_c < 2:
+        raise AnalysisError(f'only {n_c} counted generators found (floor 2: the two findall variants)')
+    return r
+
+
 def rule_DELEG(ctx):
     """Array serialisation delegates to its data; __bytes__ is tobytes; the bytes property refuses partial bytes."""
     m = ctx.m
